@@ -16,7 +16,7 @@ struct EvMeta { kind: &'static str, author: usize, epoch_hint: u64 }
 struct Gen {
     r: Rng, n: usize, admin_mask: u64, next_ev: u64, next_msg: u64,
     evs: BTreeMap<u64, EvMeta>, regime_causal: bool, immediate: bool,
-    client_epoch: Vec<u64>, delivered: BTreeSet<u64>, left: Option<usize>,
+    client_epoch: Vec<u64>, delivered: BTreeSet<u64>, left: Option<usize>, adv: u32,
 }
 
 impl Gen {
@@ -46,6 +46,13 @@ impl Gen {
             self.evs.insert(ev, EvMeta { kind: "prop", author: m, epoch_hint: self.client_epoch[m] });
             return format!("PR LEAVE {m} {ev} {}", self.ts());
         }
+        if k < 27 && self.adv < 2 && self.admin_mask & (1 << m) == 0 && w.pending_of(m).is_none() && self.r.chance(1, 3) {
+            // a non-admin builds a member-removing commit directly with the MLS library
+            let victim = (m + 1 + self.r.below(self.n as u64 - 1) as usize) % self.n;
+            let ev = self.next_ev; self.next_ev += 1; self.adv += 1;
+            self.evs.insert(ev, EvMeta { kind: "commit", author: m, epoch_hint: self.client_epoch[m] });
+            return format!("PR ADV {m} rm {victim} {ev} {}", self.ts());
+        }
         if k < 28 {
             let ev = self.next_ev; self.next_ev += 1;
             self.evs.insert(ev, EvMeta { kind: "bad", author: 99, epoch_hint: 0 });
@@ -54,6 +61,9 @@ impl Gen {
         if k < 40 {
             let ev = self.next_ev; self.next_ev += 1; let msg = self.next_msg; self.next_msg += 1;
             self.evs.insert(ev, EvMeta { kind: "app", author: m, epoch_hint: self.client_epoch[m] });
+            // sometimes a (malicious) sender pre-sets the id of an existing message of another author on its rumor
+            let victims: Vec<u64> = w.events.values().filter(|i| i.kind == "app" && i.author != m).filter_map(|i| i.msg.map(|x| x.0)).collect();
+            if !victims.is_empty() && self.r.chance(1, 6) { let v = *self.r.pick(&victims); return format!("PR SEND {m} {ev} {} {msg} {v}", self.ts()); }
             return format!("PR SEND {m} {ev} {} {msg}", self.ts());
         }
         // deliver (possibly a duplicate; possibly own echo)
@@ -82,7 +92,10 @@ struct Truth {
     late: BTreeSet<(usize, u64)>,
     offered: Vec<BTreeSet<u64>>,           // events already offered to each client
     rollback_then_refused: bool,
-    stale_proposal: bool,                  // a proposal was offered to a client that had already left its epoch
+    stale_proposal: bool,
+    sweeps: bool,
+    own_echo_other_pending: bool,          // a client was offered one of its own commits while a DIFFERENT commit of its own was pending
+    sendx: Vec<(usize, u64, u64)>,         // (malicious sender, its message number, victim message number)                          // a commit swept other members' pending proposals                  // a proposal was offered to a client that had already left its epoch
     leave_to_admin_with_pending: bool,          // application messages first offered when the receiver's epoch differed from the sender's
     refusal_changed: Vec<String>,
 }
@@ -134,7 +147,7 @@ fn run_world<S: MdkStorageProvider, F: Fn(usize) -> S>(run: &mut Run, lines_in: 
         let admin_mask = 1 | (r.below(1 << n) & !1) ;
         let retention = *r.pick(&[5usize, 5, 5, 5, 5, 2, 1, 0]);
         let mut g = Gen { r: r.fork(), n, admin_mask, next_ev: 0, next_msg: 1, evs: BTreeMap::new(),
-                          regime_causal: h % 3 != 2, immediate: h % 4 == 3, client_epoch: vec![1; n], delivered: BTreeSet::new(), left: None };
+                          regime_causal: h % 3 != 2, immediate: h % 4 == 3, client_epoch: vec![1; n], delivered: BTreeSet::new(), left: None, adv: 0 };
         let mut w: World<S> = World::new(n, admin_mask, retention, &mk);
         let reset = format!("PR RESET {n} {admin_mask} {retention}");
         let mut seq: Vec<String> = vec![reset.clone()];
@@ -171,14 +184,58 @@ fn step<S: MdkStorageProvider>(w: &mut World<S>, l: &str, truth: &mut Truth, run
             if info.kind == "commit" && w.mls_epoch(m) > info.epoch + truth.retention { truth.beyond_retention = true; }
             if info.kind == "app" && w.mls_epoch(m) != info.epoch { truth.late.insert((m, ev)); }
             if info.kind == "prop" && w.mls_epoch(m) > info.epoch { truth.stale_proposal = true; }
+            if info.kind == "commit" && info.author == m && info.epoch == w.mls_epoch(m) { if let Some(p) = w.pending_of(m) { if p != ev { truth.own_echo_other_pending = true; } } }
         }
     }
     if t[1] == "MERGE" { truth.merges.push((m, t[3].parse().unwrap())); }
+    if t[1] == "SEND" && t.len() > 6 { truth.sendx.push((m, t[5].parse().unwrap(), t[6].parse().unwrap())); }
+    let members_before = if t[1] == "DELIVER" { w.members_of(m) } else { vec![] };
+    let name_before = if t[1] == "DELIVER" { w.clients[m].mdk.get_group(&w.gid).ok().flatten().map(|g| g.name).unwrap_or_default() } else { String::new() };
     let rb_before = if t[1] == "DELIVER" { w.clients[m].cb.0.lock().unwrap().len() } else { 0 };
     let leave_to_pending_admin = t[1] == "DELIVER" && w.events.get(&t[3].parse().unwrap()).map(|i| i.kind == "prop").unwrap_or(false)
         && w.admin_mask & (1 << m) != 0 && w.pending_of(m).is_some();
     let (line, fp) = w.exec(l);
     if t[1] == "DELIVER" { truth.offered[m].insert(t[3].parse().unwrap()); }
+    if t[1] == "DELIVER" && fp != "skip" {
+        let ev: u64 = t[3].parse().unwrap();
+        let info = w.events.get(&ev).cloned();
+        let seqtxt = || seq.join(" || ") + " || " + &line;
+        // C05: roster and group data change only as the effect of an authorised commit, and exactly as it says
+        let members_after = w.members_of(m);
+        let name_after = w.clients[m].mdk.get_group(&w.gid).ok().flatten().map(|g| g.name).unwrap_or_default();
+        let active_after = fp.contains(" act=1 ");
+        if active_after && (members_after != members_before || name_after != name_before) {
+            let rolled = w.clients[m].cb.0.lock().unwrap().len() > rb_before;
+            let ok = match &info { Some(i) if i.kind == "commit" && i.auth => true, _ => false };
+            if !ok && !rolled {
+                run.oracle_fail("C05", if truth.sweeps { "operation-commits-others-pending-proposals" } else { "" }, format!("[{backend}] member {m}: roster/name changed ({:?},{name_before}) -> ({:?},{name_after}) by event {ev} which is not an authorised commit", members_before, members_after), seqtxt());
+            }
+        }
+        // C04: every stored message is attributed to its true author and keyed by the hash of its own fields
+        if let Ok(msgs) = w.clients[m].mdk.get_messages(&w.gid, None) {
+            for sm in msgs {
+                let truth_author = w.events.values().find(|i| i.msg.map(|x| x.1) == Some(sm.id)).map(|i| i.author);
+                let recomputed = { let mut e = sm.event.clone(); e.id = None; e.id() };
+                let own = sm.pubkey == w.clients[m].keys.public_key();
+                if !own && (recomputed != sm.id || truth_author.map(|a| w.clients[a].keys.public_key() != sm.pubkey).unwrap_or(true)) {
+                    run.oracle_fail("C04", "", format!("[{backend}] member {m} stores message {} whose id is not the hash of its fields or whose author is not its MLS-authenticated sender", sm.id), seqtxt());
+                }
+            }
+        }
+        // C03: content is stored only by clients that were in the state the message was sent in
+        if let Some(i) = &info { if i.kind == "app" && fp.starts_with("res=App") && i.author != m && !truth.visited[m].contains(&i.state) {
+            run.oracle_fail("C03", "", format!("[{backend}] member {m} obtained message event {ev} sent at state {} which it was never in", i.state), seqtxt());
+        } }
+        // C20: never more snapshots than the configured retention
+        if let Some(sn) = fp.split(" snaps=").nth(1).and_then(|x| x.split(' ').next()).and_then(|x| x.parse::<u64>().ok()) {
+            if sn > truth.retention { run.oracle_fail("C20", "", format!("[{backend}] member {m} holds {sn} snapshots, retention is {}", truth.retention), seqtxt()); }
+        }
+    }
+    if (t[1] == "COMMIT") && line.contains(" removes=") && !line.contains(" removes=-") && !line.contains("refused=1") {
+        truth.sweeps = true;
+        let kind = t[3];
+        run.oracle_fail("C05", "operation-commits-others-pending-proposals", format!("[{backend}] member {m}'s own {} operation also commits roster changes proposed by others ({})", if kind == "su" { "self-update" } else { "group-data" }, line.split(" | ").nth(1).unwrap_or("")), seq.join(" || ") + " || " + &line);
+    }
     if let Some(st) = fp.split(" st=").nth(1).and_then(|x| x.split(' ').next()).and_then(|x| x.parse::<u64>().ok()) { truth.visited[m].insert(st); }
     // C06: a refused event has no effect on the observable projection
     if let Some(b) = before {
@@ -201,7 +258,7 @@ fn canonical<S: MdkStorageProvider>(w: &World<S>, live: &BTreeSet<u64>) -> Vec<u
     loop {
         let cur = *chain.last().unwrap();
         let best = w.events.iter()
-            .filter(|(e, i)| i.kind == "commit" && i.state == cur && (live.contains(e) || **e >= 1000))
+            .filter(|(e, i)| i.kind == "commit" && i.auth && i.state == cur && (live.contains(e) || **e >= 1000))
             .min_by_key(|(_, i)| (i.ts, mdk_verif_harness::world::id_order_key(&i.event.id)));
         match best { Some((e, _)) => chain.push(e + 1), None => return chain }
     }
@@ -248,7 +305,7 @@ fn oracles<S: MdkStorageProvider>(run: &mut Run, w: &mut World<S>, seq: &mut Vec
     let on_chain = |st: u64| chain.contains(&st);
     let fork_merge = truth.merges.iter().any(|(_, ev)| { let p = w.events.get(ev).map(|i| i.state); w.events.iter().any(|(e2, i2)| e2 != ev && i2.kind == "commit" && Some(i2.state) == p && (live.contains(e2) || *e2 >= 1000)) });
     let ahead_on_chain = truth.ahead.iter().any(|(_, ev)| w.events.get(ev).map(|i| on_chain(i.state)).unwrap_or(false));
-    let class = if fork_merge { "merge-pending-commit-takes-no-snapshot" } else if truth.rollback_then_refused { "rolled-back-then-refused" } else if truth.stale_proposal { "late-proposal-treated-as-mip03-candidate" } else if ahead_on_chain { "event-offered-ahead-of-its-predecessor-never-retried" } else { "" };
+    let class = if truth.own_echo_other_pending { "own-echo-merges-a-different-pending-commit" } else if truth.sweeps { "operation-commits-others-pending-proposals" } else if fork_merge { "merge-pending-commit-takes-no-snapshot" } else if truth.rollback_then_refused { "rolled-back-then-refused" } else if truth.stale_proposal { "late-proposal-treated-as-mip03-candidate" } else if ahead_on_chain { "event-offered-ahead-of-its-predecessor-never-retried" } else { "" };
     let in_scope = !truth.beyond_retention;
     run.count(if !in_scope { "history:fork-deeper-than-retention" } else if class.is_empty() { "history:in-proved-regime" } else { "history:known-class" });
     // C01: all remaining (active) members hold the state MIP-03 selects
@@ -265,6 +322,8 @@ fn oracles<S: MdkStorageProvider>(run: &mut Run, w: &mut World<S>, seq: &mut Vec
             let (msgno, _) = info.msg.unwrap();
             for &c in &active {
                 if states[c] != target { continue; }
+                // a sender that pre-set another message's id on its rumor files its own copy under that id: self-inflicted
+                if truth.sendx.iter().any(|(sm, a, b)| *sm == c && (*a == msgno || *b == msgno)) { continue; }
                 let fp = &before[c];
                 let entry = fp.split(" msgs=").nth(1).unwrap_or("").split(',').find(|x| x.split(':').next() == Some(&msgno.to_string())).map(|x| x.to_string());
                 let valid = entry.as_ref().map(|e| { let st = e.split(':').nth(1).unwrap_or(""); st == "1" || (st == "0" && false) }).unwrap_or(false);
